@@ -768,6 +768,9 @@ func (g *G) reduceChain(depth int, role string) *N {
 		defer func() { g.noFault-- }()
 	}
 	recv := g.intArr(depth, 0, "chain/recv")
+	if add != '~' && g.noBrace == 0 && depth > 0 && g.t.Chance(1, 7) {
+		recv = g.iterLit(depth - 1) // folding over an iterator literal: one body activation per value
+	}
 	init := g.intExpr(depth, "chain/chainarg")
 	if g.noBrace == 0 && g.t.Chance(1, 2) {
 		nf := g.noFault
